@@ -260,7 +260,20 @@ let rec has_wide_number (j : json) : bool =
   | JObj kvs -> List.exists (fun (_, v) -> has_wide_number v) kvs
   | _ -> false
 
+(* a mapping object with a field other than from / to / repeat / absorbing: HEAD ignores the field, a later version may
+   reject it; C13's layout programs and the file the tool writes have the four fields only *)
+let has_unknown_field (j : json) : bool =
+  match j with
+  | JObj kvs ->
+    List.exists (fun (k, v) -> string_of_nlist k = "mappings" && (match v with
+        | JArr ms -> List.exists (fun m -> match m with
+            | JObj fs -> List.exists (fun (f, _) -> not (List.mem (string_of_nlist f) [ "from"; "to"; "repeat"; "absorbing" ])) fs
+            | _ -> false) ms
+        | _ -> false)) kvs
+  | _ -> false
+
 let outside_loads = ref 0
+let lenient_loads = ref 0
 let reordered_loads = ref 0
 
 (* C13: "source order preserved between DIFFERENT source mappings" - the order of the basic mappings that stem from
@@ -296,7 +309,8 @@ let load_differs (jo : json option) (ml : mapping list res) (real : mapping list
   if x_outcome_eqb ml real then None
   else match jo with
     | Some j when blockwise_perm j real ml -> incr reordered_loads; None
-    | Some j when has_wide_number j -> incr outside_loads; Some "TEXT_OUTSIDE_DOMAIN"
+    | Some j when has_wide_number j || has_unknown_field j -> incr outside_loads; Some "TEXT_OUTSIDE_DOMAIN"
+    | _ when (match ml, real with Err, Ok l -> x_check_accepted_wf l | _, _ -> false) -> incr lenient_loads; Some "TEXT_MORE_LENIENT"
     | _ -> Some "TEXT"
 
 let check_case (c : case) : unit =
@@ -311,12 +325,18 @@ let check_case (c : case) : unit =
     (* model vs implementation: the loader *)
     let model = x_load j in
     incr load_cmp;
-    let wide = has_wide_number j in
+    let wide = has_wide_number j || has_unknown_field j in
     if not (x_outcome_eqb model real) then begin
       if blockwise_perm j real model then incr reordered_loads
       else begin
         let (a, b) = diff_str real model in
-        if wide then begin incr outside_loads; report_diff c "LOAD_OUTSIDE_DOMAIN" a b end else report_diff c "LOAD" a b
+        (* an input the model rejects and the code accepts as a layout the mapper can take: a more lenient input language,
+           which no property forbids (C13-C15 speak about the inputs that ARE accepted; C14.accepted_wf below still judges
+           what was accepted) *)
+        let more_lenient = (match model, real with Err, Ok l -> x_check_accepted_wf l | _, _ -> false) in
+        if wide then begin incr outside_loads; report_diff c "LOAD_OUTSIDE_DOMAIN" a b end
+        else if more_lenient then begin incr lenient_loads; report_diff c "LOAD_MORE_LENIENT" a b end
+        else report_diff c "LOAD" a b
       end
     end;
     (* C13: the specification against the real answer *)
